@@ -66,23 +66,23 @@ META = {
     },
     'C06': {
         'engine': 'E1 verus-extract',
-        'technique': 'Verus contracts on the real block executors against an axiomatised least-relation semantics (exec_rel / iter_rel intro rules from the docs), loop invariant in continuation style',
+        'technique': 'Verus contracts on the real block executors against an axiomatised least-relation semantics (exec_rel / iter_rel intro rules from the docs), loop invariant in continuation style; bounded stand-in flow_reference (reference interpreter written from the docs vs the real assembler + processor on ~18000 generated programs) for the AST -> MAST lowering',
         'design_ref': '§7 C06',
-        'level_text': 'Deductive proof for all programs and inputs: a successful run of a join/split/loop block is derivable with the documented rules only (split takes exactly the selected branch, loop iterates exactly while the popped value is 1); a non-binary condition at a split, at loop entry or after an iteration is an execution error; executors are properly nested and terminate.',
+        'level_text': 'Deductive proof for all programs and inputs: a successful run of a join/split/loop block is derivable with the documented rules only (split takes exactly the selected branch, loop iterates exactly while the popped value is 1); a non-binary condition at a split, at loop entry or after an iteration is an execution error; executors are properly nested and terminate. Bounded (about 18000 generated nestings of if / else / while / repeat / exec with locals and colliding imports, condition values 0, 1, 2, p-1): final stack and failure agree with a reference interpreter; exec equals textual inlining.',
         'level_note': 'Trusted: decoder method contracts (assumed), hub rules are the semantics definition. AST->MAST lowering (repeat.n unrolling, exec inlining) and the parser are outside Verus reach: not decided.',
     },
     'C13': {
         'engine': 'E1 verus-extract',
-        'technique': 'Verus loop invariants on the real execute_op_batch / execute_span_block against the documented row stream (batch_stream), using batch_ok proved for batch_ops',
+        'technique': 'Verus loop invariants on the real execute_op_batch / execute_span_block against the documented row stream (batch_stream), using batch_ok proved for batch_ops; bounded stand-in decoder_model (independent batching / decoding model vs decoder columns and VmStateIterator on 20299 programs) for the decoder functions Verus cannot take (span wrappers)',
         'design_ref': '§7 C13',
-        'level_text': 'Deductive proof for all programs: the operations the decoder records for a span are exactly SPAN, the batches\' operations in order with a NOOP only after a group-ending immediate op and one per missing group up to the next power of two, RESPAN between batches, END; control blocks record JOIN/SPLIT/LOOP/REPEAT/END around their children\'s streams for the decisions taken; block starts and ends are properly nested.',
+        'level_text': 'Deductive proof for all programs: the operations the decoder records for a span are exactly SPAN, the batches\' operations in order with a NOOP only after a group-ending immediate op and one per missing group up to the next power of two, RESPAN between batches, END; control blocks record JOIN/SPLIT/LOOP/REPEAT/END around their children\'s streams for the decisions taken; block starts and ends are properly nested. Bounded (20299 programs): op bits, group count, hasher state and the op per clock agree with an independent model of programs.md / decoder/main.md.',
         'level_note': 'Trusted: decoder method contracts (one row per call with the named opcode) are assumed in unit executor; unit decoder proves them on the real Decoder/DecoderTrace/BlockStack for the control-block methods and row writers (span wrappers not yet); final-row program hash not decided.',
     },
     'C04': {
         'engine': 'E1 verus-extract',
-        'technique': 'Verus postconditions pinning every stack constraint function to flag * documented polynomial (whole result slice, wiring of all groups), plus hub lemmas (pure field arithmetic, P prime) that the documented constraints force the operation result',
+        'technique': 'Verus postconditions pinning every stack constraint function to flag * documented polynomial (whole result slice, wiring of all groups), plus hub lemmas (pure field arithmetic, P prime) that the documented constraints force the operation result; bounded fault enumeration air_full_coverage (every cell incl. decoder helpers, range checker, hasher / bitwise / memory chiplets; documentation-derived model)',
         'design_ref': '§7 C04',
-        'level_text': 'Deductive proof for all frames: each enforce_* function of field/u32/stack-manipulation/system/io/overflow/general constraints writes exactly the documented polynomials into its own cells; the 93 unique + 17 general constraints are wired on disjoint slices; soundness lemmas for ADD/MUL/INCR/NEG/NOT/AND/EQ/EQZ/binary check show a wrong next value makes a constraint non-zero.',
+        'level_text': 'Deductive proof for all frames: each enforce_* function of field/u32/stack-manipulation/system/io/overflow/general constraints writes exactly the documented polynomials into its own cells; the 93 unique + 17 general constraints are wired on disjoint slices; soundness lemmas for ADD/MUL/INCR/NEG/NOT/AND/EQ/EQZ/binary check show a wrong next value makes a constraint non-zero. Bounded (~49000 row pairs, every cell perturbed): every cell the documentation says is pinned by a main-trace transition constraint is caught, incl. the chiplets and the range checker (F41-F43 repaired).',
         'level_note': 'Trusted: OpFlags accessor values (OpFlags::new not yet under contract), P prime, winterfell frame. Not decided: chiplet constraints, range checker, cross-row lookups. Polynomials are pinned syntactically: an algebraically equivalent refactoring needs the contract updated.',
     },
     'C19': {
@@ -101,9 +101,9 @@ META = {
     },
     'C01': {
         'engine': 'E1 verus-extract',
-        'technique': 'Verus postconditions on the proving-option presets (membership in the verifier accept sets) and on the prover\'s get_pub_inputs',
+        'technique': 'Verus postconditions on the proving-option presets (membership in the verifier accept sets) and on the prover\'s get_pub_inputs; bounded prove_grid over main- and chiplet-dominated trace lengths around powers of two',
         'design_ref': '§7 C01',
-        'level_text': 'Glue obligations only: each standard preset (96/128-bit, regular/recursive) carries a hash function and options that verify() accepts for that hash function; the statement the prover commits to is (trace program info, given inputs, given outputs), the same shape verify() rebuilds.',
+        'level_text': 'Glue obligations only: each standard preset (96/128-bit, regular/recursive) carries a hash function and options that verify() accepts for that hash function; the statement the prover commits to is (trace program info, given inputs, given outputs), the same shape verify() rebuilds. Bounded: 14 real prove / verify / byte-round-trip runs incl. exact-fit main lengths 2^k - 1 (F23) and chiplet lengths 2^6 - 3 .. 2^6 + 2.',
         'level_note': 'Protocol completeness (winterfell prover succeeds, verifier accepts, security level) is assumed, not proved; prove() body out of reach; honest-trace satisfaction is property C03.',
     },
     'C16': {
